@@ -91,6 +91,8 @@ class Ext:
             return z3.BoolVal(False)
         if isinstance(a, VBool) and isinstance(b, VBool):
             return a.t == b.t
+        if isinstance(a, VFunc) or isinstance(b, VFunc):
+            return z3.BoolVal(a is b)
         if isinstance(a, VCls) and isinstance(b, VCls):
             if a.py is not None and b.py is not None:
                 return z3.BoolVal(a.py is b.py)
@@ -173,11 +175,9 @@ class Ext:
                 return VBool(False)
             if a.sk in ("set", "frozenset"):
                 raise Unsupported("set equality on symbolic sets")
-            i = z3.Int("i!eq")
-            body = z3.Implies(z3.And(i >= 0, i < a.n),
-                              self.same(ex, self.from_box(ex, z3.Select(a.arr, i), a.elem),
-                                        self.from_box(ex, z3.Select(b.arr, i), b.elem)))
-            return VBool(z3.And(a.n == b.n, z3.ForAll([i], body)))
+            body = lambda i: self.same(ex, self.from_box(ex, z3.Select(a.arr, i), a.elem),
+                                       self.from_box(ex, z3.Select(b.arr, i), b.elem))
+            return VBool(z3.And(a.n == b.n, ex.forall(0, a.n, body)))
         if isinstance(a, (VSeq, VTup)) and isinstance(b, (VSeq, VTup)):
             s, t = (a, b) if isinstance(a, VSeq) else (b, a)
             if s.sk != t.sk:
@@ -308,9 +308,7 @@ class Ext:
         if isinstance(c, VSeq):
             if c.sk == "bytes":
                 raise Unsupported("in on bytes")
-            i = ex.fresh("i_in", I)
-            el = self.from_box(ex, z3.Select(c.arr, i), c.elem)
-            return z3.Exists([i], z3.And(i >= 0, i < c.n, self.same(ex, el, x)))
+            return ex.exists(0, c.n, lambda i: self.same(ex, self.from_box(ex, z3.Select(c.arr, i), c.elem), x), "i_in")
         if isinstance(c, VStr):
             if isinstance(x, VStr):
                 return z3.Contains(c.t, x.t)
@@ -322,8 +320,8 @@ class Ext:
                 ds.append(z3.And(p, ex.truthy(self.eq(ex, kv, x))))
             return z3.Or(*ds) if ds else z3.BoolVal(False)
         if isinstance(c, VMap):
-            i = ex.fresh("i_in", I)
-            return z3.Exists([i], z3.And(i >= 0, i < c.n, self.same(ex, VObj(z3.Select(c.keys, i)), x)))
+            kb = ex.box(x)
+            return ex.exists(0, c.n, lambda i: self.world.key_same(ex, z3.Select(c.keys, i), x, kb), "i_in")
         if isinstance(c, VRec):
             return ex.truthy(c.model.contains(ex, c, x, node))
         if isinstance(c, VIter) and c.ik == "keys":
